@@ -45,8 +45,9 @@ Definition un_emit (x : sx) : result :=
 
 Definition table : list (string * (sx -> sx)) := [
   ("regen.fresh", fun a => sx_result (fresh ctree cfind cseen (un_bool (nth_sx 0 a)) (un_world (nth_sx 1 a))));
-  ("regen.lazy", fun a => sx_outcome (lazy ctree cfind cseen (un_bool (nth_sx 0 a)) (un_world (nth_sx 1 a))
-                                           (un_saved (nth_sx 2 a))));
+  (* [fx74; world; saved; fxc (F1: find_check_cache distrusts a cache newer than the build file)] *)
+  ("regen.lazy", fun a => sx_outcome (lazy ctree cfind cseen (un_bool (nth_sx 0 a)) (un_bool (nth_sx 3 a))
+                                           (un_world (nth_sx 1 a)) (un_saved (nth_sx 2 a))));
   ("regen.due", fun a => sx_bool (regen_due ctree (un_bool (nth_sx 0 a)) (un_emit (nth_sx 1 a))
                                             (un_world (nth_sx 2 a))));
   ("regen.primary", fun a => A (primary (un_emit (nth_sx 0 a))))
